@@ -40,6 +40,7 @@ var Prop = &engine.Prop{
 		{Name: "stress", Quick: 16, Thorough: 960, Repeat: 20, Fn: stressCase},
 		{Name: "many-holders", Quick: 24, Thorough: 480, Fn: manyHoldersCase},
 		{Name: "many-keys", Quick: 60, Thorough: 2400, Fn: manyKeysCase},
+		{Name: "footprint", Quick: 8, Thorough: 64, Fn: footprintCase},
 	},
 	Floors: map[string]int64{
 		"pending_observations": 500,
@@ -937,4 +938,79 @@ func manyKeysCase(k *engine.Case) {
 		k.Fail("residue", "everything released, but the locker keeps %d per-key entrie(s)", e)
 	}
 	k.Count("many_keys_rounds", 1)
+}
+
+// footprintCase: "when every lock has been released the locker retains no per-key state" -
+// also state the entry tables do not show. A hundred thousand distinct keys are locked and
+// released (string keys, 40 bytes each); afterwards, with the locker still referenced and the
+// garbage collected, the live heap may not have grown by an amount that scales with the number
+// of keys: the bound is 3 MiB, while keeping anything per key costs at least 100 000 x (key +
+// bookkeeping) >= 6 MiB. The unchanged lockers end a few tens of KiB above where they started.
+func footprintCase(k *engine.Case) {
+	r := k.R
+	var l keylock.TLocker[string]
+	name := ""
+	p := pick(r, []uint64{1, 3, 73})
+	switch r.Intn(3) {
+	case 0:
+		l, name = keylock.NewTKeyLocker[string](), "TKeyLocker[string]"
+	case 1:
+		l, name = keylock.NewTKeyLockeGrp[string](remap.WithPrime(p)), fmt.Sprintf("TKeyLockerGrp/mod%d[string]", p)
+	default:
+		l, name = keylock.NewTXHashTKeyLockeGrp[string](remap.WithPrime(p)), fmt.Sprintf("TKeyLockerGrp/xxh%d[string]", p)
+	}
+	var al keylock.Locker
+	if r.Intn(2) == 0 {
+		l = nil
+		switch r.Intn(3) {
+		case 0:
+			al, name = keylock.NewKeyLocker(), "KeyLocker"
+		case 1:
+			al, name = keylock.NewKeyLockeGrp(remap.WithPrime(p)), fmt.Sprintf("KeyLockerGrp/mod%d", p)
+		default:
+			al, name = keylock.NewXHashKeyLockeGrp(remap.WithPrime(p)), fmt.Sprintf("KeyLockerGrp/xxh%d", p)
+		}
+	}
+	const n = 100000
+	k.Logf("locker=%s: %d distinct string keys locked and released one after the other; live heap before / after", name, n)
+	k.Nontrivial()
+	heap := func() uint64 {
+		var ms runtime.MemStats
+		runtime.GC()
+		runtime.GC()
+		runtime.ReadMemStats(&ms)
+		return ms.HeapAlloc
+	}
+	before := heap()
+	for i := 0; i < n; i++ {
+		key := fmt.Sprintf("footprint-key-%08d-%016x", i, uint64(i)*0x9e3779b97f4a7c15)
+		if l != nil {
+			if i%3 == 0 {
+				l.RLock(key)
+				l.RUnlock(key)
+			} else {
+				l.Lock(key)
+				l.Unlock(key)
+			}
+		} else {
+			if i%3 == 0 {
+				al.RLock(key)
+				al.RUnlock(key)
+			} else {
+				al.Lock(key)
+				al.Unlock(key)
+			}
+		}
+	}
+	after := heap()
+	runtime.KeepAlive(l)
+	runtime.KeepAlive(al)
+	grown := int64(after) - int64(before)
+	k.Evals(1)
+	k.Count("footprint_cases", 1)
+	k.C.Max("footprint_heap_growth_bytes", grown)
+	k.Logf("live heap %d -> %d bytes (%+d)", before, after, grown)
+	if grown > 3<<20 {
+		k.Fail("residue", "%s: after %d distinct keys were locked and released, the live heap is %d bytes above where it started (more than 3 MiB): something is kept per key", name, n, grown)
+	}
 }
